@@ -46,6 +46,8 @@ def remove_integer(string: bytes, use_broken_open_ssl_mechanism: bool = False) -
     length, llen = read_length(string[1:])
     if len(string) < 1 + llen + length:
         raise UnexpectedDER("ran out of integer bytes")
+    if length == 0:
+        raise UnexpectedDER("zero-length integer")
     numberbytes = string[1 + llen : 1 + llen + length]
     rest = string[1 + llen + length :]
     v = int(binascii.hexlify(numberbytes), 16)
@@ -68,6 +70,8 @@ def encode_length(length: int) -> bytes:
 
 
 def read_length(string: bytes) -> tuple[int, int]:
+    if len(string) == 0:
+        raise UnexpectedDER("ran out of length bytes")
     s0 = ord(string[:1])
     if not (s0 & 0x80):
         # short form
@@ -77,6 +81,9 @@ def read_length(string: bytes) -> tuple[int, int]:
     llen = s0 & 0x7F
     if llen > len(string) - 1:
         raise UnexpectedDER("ran out of length bytes")
+    if llen == 0:
+        # 0x80: long form with no length bytes, i.e. a length of zero
+        return 0, 1
     return int(binascii.hexlify(string[1 : 1 + llen]), 16), 1 + llen
 
 
